@@ -101,6 +101,7 @@ Aux:
 				rest = append(rest, a)
 			}
 		case keyMode:
+			keyArgs := args[ai:]
 			for ai < len(args) {
 				a := args[ai]
 				ai++
@@ -109,8 +110,13 @@ Aux:
 					if len(args) <= ai {
 						panic(fmt.Sprintf("Missing value for key :%s.", sym))
 					}
-					if lam.isKeyParam(string(sym)) {
+					switch {
+					case lam.isKeyParam(string(sym)):
 						ss.Let(sym, args[ai])
+					case strings.EqualFold(string(sym), "allow-other-keys"):
+						// always allowed
+					case !lam.allowOtherKeys(keyArgs):
+						ErrorPanic(s, depth, "Unknown keyword argument :%s to %s.", sym, lam.Doc.Name)
 					}
 					ai++
 					continue
@@ -201,6 +207,22 @@ func (lam *Lambda) isKeyParam(name string) bool {
 			keys = false
 		case keys && !strings.HasPrefix(ad.Name, "&") && strings.EqualFold(ad.Name, name):
 			return true
+		}
+	}
+	return false
+}
+
+// allowOtherKeys returns true if the lambda list includes &allow-other-keys
+// or the keyword arguments of the call include a non-nil :allow-other-keys.
+func (lam *Lambda) allowOtherKeys(keyArgs List) bool {
+	for _, ad := range lam.Doc.Args {
+		if strings.EqualFold(ad.Name, AmpAllowOtherKeys) {
+			return true
+		}
+	}
+	for i := 0; i < len(keyArgs)-1; i += 2 {
+		if sym, ok := keyArgs[i].(Symbol); ok && strings.EqualFold(string(sym), ":allow-other-keys") {
+			return keyArgs[i+1] != nil
 		}
 	}
 	return false
